@@ -34,9 +34,10 @@ Section Main.
   Proof. destruct d; cbn; intros; congruence. Qed.
 
   Lemma number_text_props vi d :
-    int_range vi = true -> nz (number_text vi d) /\ zlen (number_text vi d) <= c_NUMBER_BUFFER_SIZE - 1.
+    int_range vi = true -> valid_dbl d = true ->
+    nz (number_text vi d) /\ zlen (number_text vi d) <= c_NUMBER_BUFFER_SIZE - 1.
   Proof.
-    intros Hi. unfold PrintDefs.number_text.
+    intros Hi Hv. unfold PrintDefs.number_text.
     destruct (is_nan d || is_inf d) eqn:Hn.
     - split; [unfold lit_null; repeat constructor; lia|reflexivity || (unfold zlen; cbn; lia)].
     - pose proof (finite_of_not_nan_inf d Hn) as Hf.
@@ -53,10 +54,10 @@ Section Main.
   Proof. intros H. unfold sprintf_number_buffer. destruct (Z.ltb_spec c_NUMBER_BUFFER_SIZE (zlen txt + 1)); [lia|reflexivity]. Qed.
 
   Lemma print_number_prints vi d :
-    int_range vi = true -> prints (print_number vi d) (number_text vi d).
+    int_range vi = true -> valid_dbl d = true -> prints (print_number vi d) (number_text vi d).
   Proof.
-    intros Hi p T HT.
-    destruct (number_text_props vi d Hi) as (Hnz & Hlen).
+    intros Hi Hv p T HT.
+    destruct (number_text_props vi d Hi Hv) as (Hnz & Hlen).
     pose proof (zlen_nonneg (number_text vi d)) as H0.
     destruct (ensure_put_prints oracle junk (number_text vi d) (zlen (number_text vi d) + 1) (zlen (number_text vi d)) eq_refl ltac:(lia) p T HT)
       as (ok & p' & E & R).
@@ -110,8 +111,8 @@ Section Main.
   Qed.
 
   Lemma opt_all_nz (f : node -> option bytes) cs :
-    Forall (fun c => ints_ok c = true -> forall txt, f c = Some txt -> nz txt) cs ->
-    forallb ints_ok cs = true ->
+    Forall (fun c => fields_ok c = true -> forall txt, f c = Some txt -> nz txt) cs ->
+    forallb fields_ok cs = true ->
     forall l, opt_all (map f cs) = Some l -> Forall nz l.
   Proof.
     induction 1 as [|c cs Hc Hcs IH]; intros Hi l H.
@@ -120,17 +121,17 @@ Section Main.
       apply opt_all_cons in H as (t & ts & H1 & H2 & ->). constructor; [eapply Hc; eauto|apply IH; auto].
   Qed.
 
-  Lemma render_nz n : ints_ok n = true -> forall fmt d txt, render fmt d n = Some txt -> nz txt.
+  Lemma render_nz n : fields_ok n = true -> forall fmt d txt, render fmt d n = Some txt -> nz txt.
   Proof.
     induction n as [t s i dv k cs IH] using node_ind'. intros Hi fmt d txt.
-    cbn [ints_ok] in Hi. apply andb_true_iff in Hi as (Hi1 & Hi2).
+    cbn [fields_ok] in Hi. apply andb_true_iff in Hi as (Hi1 & Hi2). apply andb_true_iff in Hi1 as (Hi1 & Hiv).
     cbn [PrintDefs.render].
     destruct (tymask t =? c_cJSON_NULL); [intros H; inversion H; unfold lit_null; repeat constructor; lia|].
     destruct (tymask t =? c_cJSON_False); [intros H; inversion H; unfold lit_false; repeat constructor; lia|].
     destruct (tymask t =? c_cJSON_True); [intros H; inversion H; unfold lit_true; repeat constructor; lia|].
     destruct (tymask t =? c_cJSON_Number).
     { destruct (c_NUMBER_BUFFER_SIZE - 1 <? zlen (number_text i dv)); [discriminate|].
-      intros H; inversion H. apply number_text_props. assumption. }
+      intros H; inversion H. apply number_text_props; assumption. }
     destruct (tymask t =? c_cJSON_Raw).
     { destruct s; [|discriminate]. intros H; inversion H. apply cstr_nz. }
     destruct (tymask t =? c_cJSON_String); [intros H; inversion H; apply render_string_nz|].
@@ -152,7 +153,7 @@ Section Main.
 
   (** ---------------------------------------------------------------- what is proved of print_value, per node *)
   Definition spec_of (pv : node -> printbuffer -> res (bool * printbuffer)) (n : node) : Prop :=
-    ints_ok n = true ->
+    fields_ok n = true ->
     forall p T, text_at p T -> 0 <= pb_depth p ->
     exists ok p', pv n p = Ok (ok, p') /\ frame p p' /\
       (ok = true -> exists txt, render (pb_format p) (pb_depth p) n = Some txt /\ done p' T txt /\
@@ -179,7 +180,7 @@ Section Main.
   Lemma grown_set_buf p o : grown p (set_buf p o). Proof. split; [cbn; lia|]. intros _. repeat split. Qed.
 
   (** the loop of print_array *)
-  Lemma elements_spec pv : forall l, Forall (spec_of pv) l -> forallb ints_ok l = true ->
+  Lemma elements_spec pv : forall l, Forall (spec_of pv) l -> forallb fields_ok l = true ->
     forall p T, text_at p T -> 0 <= pb_depth p ->
     exists ok p', print_array_elements oracle junk pv l p = Ok (ok, p') /\ frame p p' /\
       (ok = true -> exists txts, opt_all (map (render (pb_format p) (pb_depth p)) l) = Some txts /\
@@ -323,7 +324,7 @@ Section Main.
     - intros H. apply opt_all_cons in H as (t1 & ts1 & _ & _ & ->). reflexivity.
   Qed.
 
-  Lemma members_spec pv : forall l, Forall (spec_of pv) l -> forallb ints_ok l = true ->
+  Lemma members_spec pv : forall l, Forall (spec_of pv) l -> forallb fields_ok l = true ->
     forall p T, text_at p T -> 0 <= pb_depth p ->
     exists ok p', print_object_members oracle junk pv l p = Ok (ok, p') /\ frame p p' /\
       (ok = true -> exists txts, opt_all (map (render (pb_format p) (pb_depth p)) l) = Some txts /\
@@ -472,7 +473,7 @@ Section Main.
     - rewrite !zlen_app in *. pose proof (zlen_nonneg a). lia.
   Qed.
 
-  Lemma array_spec pv ch : Forall (spec_of pv) ch -> forallb ints_ok ch = true ->
+  Lemma array_spec pv ch : Forall (spec_of pv) ch -> forallb fields_ok ch = true ->
     forall p T, text_at p T -> 0 <= pb_depth p ->
     exists ok p', print_array oracle junk pv ch p = Ok (ok, p') /\ frame p p' /\
       (ok = true -> exists txts, opt_all (map (render (pb_format p) (pb_depth p + 1)) ch) = Some txts /\
@@ -522,5 +523,256 @@ Section Main.
     split; [cbn; rewrite D6, D4; lia|].
     split; [cbn [pb_length set_depth]; rewrite Hlen; rewrite !zlen_app, zlen_cons, zlen_nil in Len6; lia|].
     eapply grown_trans; [exact F4'|exact G4'|]. eapply grown_trans; [exact F6|exact G6|split; [cbn; lia|intros _; repeat split]].
+  Qed.
+
+  Definition opn (fmt : bool) : bytes := [ch_lbrace] ++ (if fmt then [ch_nl] else []).
+  Definition object_text (fmt : bool) (d : Z) (keys : list (option bytes)) (txts : list bytes) : bytes :=
+    [ch_lbrace] ++ (if fmt then [ch_nl] else []) ++ members_text fmt (d + 1) (combine keys txts)
+    ++ (if fmt then tabs d else []) ++ [ch_rbrace].
+
+  Lemma object_spec pv ch : Forall (spec_of pv) ch -> forallb fields_ok ch = true ->
+    forall p T, text_at p T -> 0 <= pb_depth p ->
+    exists ok p', print_object oracle junk pv ch p = Ok (ok, p') /\ frame p p' /\
+      (ok = true -> exists txts, opt_all (map (render (pb_format p) (pb_depth p + 1)) ch) = Some txts /\
+                    done p' T (object_text (pb_format p) (pb_depth p) (map n_key ch) txts) /\ pb_depth p' = pb_depth p /\
+                    zlen T + zlen (object_text (pb_format p) (pb_depth p) (map n_key ch) txts) + 2 <= pb_length p' /\ grown p p') /\
+      (forall txts, opt_all (map (render (pb_format p) (pb_depth p + 1)) ch) = Some txts ->
+                    room p (zlen T + zlen (object_text (pb_format p) (pb_depth p) (map n_key ch) txts) + 2) -> ok = true).
+  Proof.
+    intros Hch Hi p T HT Hd. unfold print_object.
+    set (fmt := pb_format p) in *. set (d := pb_depth p) in *.
+    pose proof (ind_len fmt d Hd) as IL.
+    assert (OL : zlen (opn fmt) = if fmt then 2 else 1) by (destruct fmt; reflexivity).
+    assert (Hlen : forall txts : list bytes, zlen (object_text fmt d (map n_key ch) txts) =
+                     zlen (opn fmt) + zlen (members_text fmt (d + 1) (combine (map n_key ch) txts)) + zlen (ind fmt d) + 1).
+    { intros. unfold object_text, opn, ind. destruct fmt; rewrite ?zlen_app, ?zlen_cons, ?zlen_nil; unfold bytes in *; lia. }
+    assert (Hpos : forall txts : list bytes, 0 <= zlen (members_text fmt (d + 1) (combine (map n_key ch) txts))) by (intros; apply zlen_nonneg).
+    destruct (write_token oracle junk p T (opn fmt) ((if fmt then 2 else 1) + 1) HT ltac:(destruct fmt; lia) ltac:(lia)) as (ok1 & p1 & E1 & F1 & C1 & S1).
+    rewrite E1. cbn [bind]. destruct ok1; cbn [negb].
+    2: { exists false, p1. split; [reflexivity|]. split; [exact F1|]. split; [discriminate|].
+         intros txts _ R. apply C1. eapply room_mono; [exact R|]. rewrite Hlen. pose proof (Hpos txts). destruct fmt; lia. }
+    destruct (S1 eq_refl) as (D1 & p2 & E2 & F2 & G2 & D2 & O2 & Len2 & Adv2 & _).
+    pose proof F1 as (Ff1 & _ & _). fold fmt in Ff1. rewrite Ff1. fold (opn fmt). rewrite E2. cbn [bind].
+    pose proof (Adv2 (opn fmt) [] ltac:(rewrite app_nil_r; reflexivity)) as TA3. rewrite OL in TA3.
+    apply (text_at_set_depth _ _ (pb_depth p2 + 1)) in TA3.
+    change (set_depth (set_offset p2 (pb_offset p2 + (if fmt then 2 else 1))) (pb_depth p2 + 1))
+      with (set_offset (set_depth p2 (pb_depth p2 + 1)) (pb_offset p2 + (if fmt then 2 else 1))) in TA3.
+    set (p3 := set_offset (set_depth p2 (pb_depth p2 + 1)) (pb_offset p2 + (if fmt then 2 else 1))) in *.
+    assert (F3 : frame p p3) by (eapply frame_trans; [exact F2|repeat split]).
+    assert (G3 : grown p p3) by (eapply grown_trans; [exact F2|exact G2|split; [cbn; lia|intros _; repeat split]]).
+    assert (D3 : pb_depth p3 = d + 1) by (unfold p3; cbn; rewrite D2; reflexivity).
+    destruct (members_spec pv ch Hch Hi p3 _ TA3 ltac:(lia)) as (ok4 & p4 & E4 & F4 & S4 & C4).
+    pose proof F3 as (Ff3 & _ & _). fold fmt in Ff3. rewrite Ff3, D3 in S4, C4.
+    rewrite E4. cbn [bind].
+    destruct ok4; cbn [negb].
+    2: { exists false, p4. split; [reflexivity|]. split; [eapply frame_trans; [exact F3|exact F4]|]. split; [discriminate|].
+         intros txts Ht R. apply (C4 txts Ht). eapply room_step; [exact F3|exact G3|]. eapply room_mono; [exact R|].
+         rewrite Hlen, zlen_app. pose proof (zlen_nonneg (ind fmt d)). lia. }
+    destruct (S4 eq_refl) as (txts & Ht & TA4 & D4 & G4).
+    assert (F4' : frame p p4) by (eapply frame_trans; [exact F3|exact F4]).
+    assert (G4' : grown p p4) by (eapply grown_trans; [exact F3|exact G3|exact G4]).
+    pose proof F4' as (Ff4 & _ & _). fold fmt in Ff4. rewrite Ff4, D4.
+    destruct (write_token oracle junk p4 _ (ind fmt d ++ [ch_rbrace; 0]) (if fmt then d + 1 + 1 else 2) TA4
+                ltac:(destruct fmt; lia) ltac:(rewrite zlen_app, IL; change (zlen [ch_rbrace; 0]) with 2; destruct fmt; lia)) as (ok5 & p5 & E5 & F5 & C5 & S5).
+    rewrite E5. cbn [bind].
+    destruct ok5; cbn [negb].
+    2: { exists false, p5. split; [reflexivity|]. split; [eapply frame_trans; [exact F4'|exact F5]|]. split; [discriminate|].
+         intros txts' Ht' R. rewrite Ht in Ht'. injection Ht' as <-.
+         apply C5. eapply room_step; [exact F4'|exact G4'|]. eapply room_mono; [exact R|].
+         rewrite Hlen, !zlen_app, IL. destruct fmt; lia. }
+    destruct (S5 eq_refl) as (D5 & p6 & E6 & F6 & G6 & D6 & O6 & Len6 & _ & Dn6).
+    pose proof F5 as (Ff5 & _ & _). rewrite Ff5, Ff4, D5, D4.
+    replace ((if fmt then tabs (d + 1 - 1) else []) ++ [ch_rbrace; 0]) with (ind fmt d ++ [ch_rbrace; 0])
+      by (unfold ind; replace (d + 1 - 1) with d by lia; reflexivity).
+    rewrite E6. cbn [bind].
+    eexists true, _. split; [reflexivity|]. split; [eapply frame_trans; [exact F4'|]; eapply frame_trans; [exact F6|repeat split]|].
+    split; [|reflexivity]. intros _. exists txts. split; [exact Ht|].
+    split.
+    { apply done_set_depth. unfold object_text.
+      apply done_reassoc, done_reassoc, done_reassoc.
+      replace (((T ++ [ch_lbrace]) ++ (if fmt then [ch_nl] else [])) ++ members_text fmt (d + 1) (combine (map n_key ch) txts))
+        with ((T ++ opn fmt) ++ members_text fmt (d + 1) (combine (map n_key ch) txts))
+        by (unfold opn; rewrite <- !app_assoc; reflexivity).
+      apply (Dn6 (ind fmt d ++ [ch_rbrace])). rewrite <- app_assoc. reflexivity. }
+    split; [cbn [pb_depth set_depth]; rewrite D6, D4; lia|].
+    split; [cbn [pb_length set_depth]; rewrite Hlen; rewrite !zlen_app in Len6; rewrite IL; destruct fmt; lia|].
+    eapply grown_trans; [exact F4'|exact G4'|]. eapply grown_trans; [exact F6|exact G6|split; [cbn; lia|intros _; repeat split]].
+  Qed.
+
+  (** ---------------------------------------------------------------- print_value *)
+  Lemma prints_spec (f : printbuffer -> res (bool * printbuffer)) (txt : bytes) p T :
+    prints f txt -> text_at p T ->
+    exists ok p', f p = Ok (ok, p') /\ frame p p' /\
+      (ok = true -> exists t, Some txt = Some t /\ done p' T t /\ pb_depth p' = pb_depth p /\ zlen T + zlen t + 2 <= pb_length p' /\ grown p p') /\
+      (forall t, Some txt = Some t -> room p (zlen T + zlen t + 2) -> ok = true).
+  Proof.
+    intros Hp HT. destruct (Hp p T HT) as (ok & p' & E & F & S & C). exists ok, p'. split; [exact E|]. split; [exact F|].
+    split; [intros Hok; exists txt; split; [reflexivity|apply S; exact Hok]|]. intros t [= <-]. exact C.
+  Qed.
+
+  Lemma fails_spec p T :
+    exists ok p', @Ok (bool * printbuffer) (false, p) = Ok (ok, p') /\ frame p p' /\
+      (ok = true -> exists t, @None bytes = Some t /\ done p' T t /\ pb_depth p' = pb_depth p /\ zlen T + zlen t + 2 <= pb_length p' /\ grown p p') /\
+      (forall t, @None bytes = Some t -> room p (zlen T + zlen t + 2) -> ok = true).
+  Proof. exists false, p. split; [reflexivity|]. split; [apply frame_refl|]. split; [discriminate|]. intros t H; discriminate. Qed.
+
+  Theorem print_value_spec : forall n, spec_of print_value n.
+  Proof.
+    induction n as [t s i dv k cs IH] using node_ind'. intros Hi p T HT Hd.
+    cbn [fields_ok] in Hi. apply andb_true_iff in Hi as (Hi1 & Hi2). apply andb_true_iff in Hi1 as (Hi1 & Hiv).
+    cbn [PrintDefs.print_value PrintDefs.render].
+    destruct (tymask t =? c_cJSON_NULL); [apply (prints_spec (fun p => print_literal oracle junk p 5 lit_null)); [apply print_literal_prints; reflexivity|exact HT]|].
+    destruct (tymask t =? c_cJSON_False); [apply (prints_spec (fun p => print_literal oracle junk p 6 lit_false)); [apply print_literal_prints; reflexivity|exact HT]|].
+    destruct (tymask t =? c_cJSON_True); [apply (prints_spec (fun p => print_literal oracle junk p 5 lit_true)); [apply print_literal_prints; reflexivity|exact HT]|].
+    destruct (tymask t =? c_cJSON_Number).
+    { destruct (number_text_props i dv Hi1 Hiv) as (_ & Hl).
+      destruct (Z.ltb_spec (c_NUMBER_BUFFER_SIZE - 1) (zlen (number_text i dv))) as [h|_]; [lia|].
+      apply (prints_spec (print_number i dv)); [apply print_number_prints; assumption|exact HT]. }
+    destruct (tymask t =? c_cJSON_Raw).
+    { destruct s as [s0|]; [|apply fails_spec].
+      apply (prints_spec (fun p => print_literal oracle junk p (zlen (cstr s0) + 1) (cstr s0))); [apply print_literal_prints; reflexivity|exact HT]. }
+    destruct (tymask t =? c_cJSON_String); [apply (prints_spec (print_string_ptr oracle junk s)); [apply print_string_ptr_prints|exact HT]|].
+    destruct (tymask t =? c_cJSON_Array).
+    { destruct (array_spec print_value cs IH Hi2 p T HT Hd) as (ok & p' & E & F & S & C).
+      exists ok, p'. split; [exact E|]. split; [exact F|]. split.
+      - intros Hok. destruct (S Hok) as (txts & Ht & R). rewrite Ht. eexists. split; [reflexivity|exact R].
+      - intros txt. destruct (opt_all (map (render (pb_format p) (pb_depth p + 1)) cs)) as [txts|]; [|discriminate].
+        intros [= <-]. apply (C txts eq_refl). }
+    destruct (tymask t =? c_cJSON_Object); [|apply fails_spec].
+    destruct (object_spec print_value cs IH Hi2 p T HT Hd) as (ok & p' & E & F & S & C).
+    exists ok, p'. split; [exact E|]. split; [exact F|]. split.
+    - intros Hok. destruct (S Hok) as (txts & Ht & R). rewrite Ht. eexists. split; [reflexivity|exact R].
+    - intros txt. destruct (opt_all (map (render (pb_format p) (pb_depth p + 1)) cs)) as [txts|]; [|discriminate].
+      intros [= <-]. apply (C txts eq_refl).
+  Qed.
+
+  (** ---------------------------------------------------------------- entry points *)
+  Notation cJSON_PrintPreallocated := (PrintDefs.cJSON_PrintPreallocated fmt_d fmt_g15 fmt_g17 sscanf_lg oracle junk).
+  Notation cJSON_PrintBuffered := (PrintDefs.cJSON_PrintBuffered fmt_d fmt_g15 fmt_g17 sscanf_lg oracle junk).
+  Notation print := (PrintDefs.print fmt_d fmt_g15 fmt_g17 sscanf_lg oracle junk).
+
+  Lemma cstr_checked_app txt rest : nz txt -> cstr_checked (txt ++ 0 :: rest) = Ok txt.
+  Proof.
+    induction 1 as [|c s Hc Hs IH]; cbn [app cstr_checked]; [reflexivity|].
+    destruct (Z.eqb_spec c 0); [contradiction|]. rewrite IH. reflexivity.
+  Qed.
+
+  (** cJSON_PrintPreallocated on a caller buffer of exactly [zlen buf] bytes with arbitrary contents *)
+  Theorem prealloc_spec (t : node) (buf : bytes) (fmt hr : bool) :
+    fields_ok t = true ->
+    exists r, cJSON_PrintPreallocated t (Some buf) (zlen buf) fmt hr = Ok r /\
+      (par_flag r = true -> exists txt rest, render fmt 0 t = Some txt /\ par_buffer r = Some (txt ++ 0 :: rest) /\
+                            zlen (txt ++ 0 :: rest) = zlen buf /\ zlen txt + 2 <= zlen buf) /\
+      (zlen buf <= c_INT_MAX -> forall txt, render fmt 0 t = Some txt -> zlen txt + 2 <= zlen buf -> par_flag r = true).
+  Proof.
+    intros Hi. unfold PrintDefs.cJSON_PrintPreallocated.
+    pose proof (zlen_nonneg buf) as Hn. destruct (Z.ltb_spec (zlen buf) 0) as [h|_]; [lia|].
+    set (p := mkpb (Some buf) (zlen buf) 0 0 true fmt hr 0 0).
+    assert (HT : text_at p []).
+    { exists buf. split; [split; [reflexivity|cbn; rewrite zlen_nil; lia]|]. split; [reflexivity|]. cbn. lia. }
+    destruct (print_value_spec t Hi p [] HT ltac:(cbn; lia)) as (ok & p' & E & F & S & C).
+    rewrite E. cbn [bind]. eexists. split; [reflexivity|]. cbn [par_flag par_buffer].
+    split.
+    - intros Hok. destruct (S Hok) as (txt & R & (rest & (B1 & B2) & O) & _ & Len & (_ & G)). destruct (G eq_refl) as (g1 & _).
+      exists txt, rest. cbn [app] in B1, B2. change (zlen (@nil Z)) with 0 in Len. change (pb_length p) with (zlen buf) in g1.
+      split; [exact R|]. split; [exact B1|]. rewrite zlen_app. split; lia.
+    - intros Hmax txt R Hfit. apply (C txt R). split; [rewrite zlen_nil; lia|]. left. split; [reflexivity|]. cbn. rewrite zlen_nil. lia.
+  Qed.
+
+  Lemma room_alloc (p : printbuffer) k :
+    pb_noalloc p = false -> (forall i, oracle i = false) -> k <= c_INT_MAX -> room p k.
+  Proof. intros H1 H2 H3. split; [exact H3|]. right. split; assumption. Qed.
+
+  (** print (cJSON_Print / cJSON_PrintUnformatted): for EVERY allocation schedule the call stays in its
+      blocks, and what it returns is exactly the rendered text with its terminator; with no failing
+      request (and a text below INT_MAX) it does return it — whatever the allocator configuration
+      and the contents of fresh memory *)
+  Theorem print_spec (t : node) (fmt hr : bool) :
+    fields_ok t = true ->
+    exists r, print t fmt hr = Ok r /\
+      (forall block, prr_block r = Some block -> exists txt, render fmt 0 t = Some txt /\ block = txt ++ [0]) /\
+      ((forall i, oracle i = false) -> forall txt, render fmt 0 t = Some txt -> zlen txt + 2 <= c_INT_MAX ->
+        prr_block r = Some (txt ++ [0])).
+  Proof.
+    intros Hi. unfold PrintDefs.print, allocate. cbn [pb_req pb_live].
+    destruct (oracle 0) eqn:O0.
+    { eexists. split; [reflexivity|]. split; [intros block; discriminate|]. intros NF. rewrite NF in O0. discriminate. }
+    set (p2 := set_length (set_buf (set_alloc (mkpb None 0 0 0 false fmt hr 0 0) 1 (0 + 1)) (Some (fresh junk c_DEFAULT_BUFFER_SIZE))) c_DEFAULT_BUFFER_SIZE).
+    assert (HT : text_at p2 []).
+    { exists (fresh junk c_DEFAULT_BUFFER_SIZE). split; [split; [reflexivity|]|split; [reflexivity|]].
+      - rewrite fresh_len by (unfold c_DEFAULT_BUFFER_SIZE; lia). reflexivity.
+      - rewrite fresh_len by (unfold c_DEFAULT_BUFFER_SIZE; lia). unfold c_DEFAULT_BUFFER_SIZE. lia. }
+    destruct (print_value_spec t Hi p2 [] HT ltac:(cbn; lia)) as (ok & p3 & E & F & S & C).
+    change (pb_format p2) with fmt in S, C. change (pb_depth p2) with 0 in S, C.
+    rewrite E. cbn [bind]. destruct ok; cbn [negb].
+    2: { eexists. split; [reflexivity|]. split; [intros block; discriminate|]. intros NF txt R Hsz.
+         assert (true = false -> False) by discriminate. exfalso.
+         assert (false = true) as X; [|discriminate X]. apply (C txt R). apply room_alloc; [reflexivity|exact NF|rewrite zlen_nil; lia]. }
+    destruct (S eq_refl) as (txt & R & D3 & Dp3 & Len3 & G3).
+    pose proof (render_nz t Hi _ _ _ R) as Hnz.
+    destruct (update_offset_spec p3 [] txt D3 Hnz) as (p4 & E4 & P4 & _ & (rest & B4a & B4b)).
+    rewrite E4. cbn [bind]. cbn [app] in B4a, B4b. rewrite B4a.
+    assert (O4 : pb_offset p4 = zlen txt) by (subst p4; cbn; rewrite zlen_nil; lia).
+    assert (L4 : pb_length p4 = pb_length p3) by (subst p4; reflexivity).
+    rewrite zlen_nil in Len3. pose proof (zlen_nonneg txt) as Hz.
+    assert (Hfirst : firstn (Z.to_nat (zlen txt + 1)) (txt ++ 0 :: rest) = txt ++ [0]) by apply firstn_app_one.
+    destruct hr.
+    - (* shrink with realloc *)
+      unfold reallocate. destruct (oracle (pb_req p4)) eqn:O5.
+      { eexists. split; [reflexivity|]. split; [intros block; discriminate|]. intros NF. rewrite NF in O5. discriminate. }
+      rewrite O4, Hfirst.
+      assert (Hskip : skipn (length (txt ++ 0 :: rest)) (fresh junk (zlen txt + 1)) = []).
+      { apply skipn_all2. pose proof (fresh_len junk (zlen txt + 1) ltac:(lia)) as FL. unfold zlen in *. rewrite app_length. cbn [length]. lia. }
+      rewrite Hskip, app_nil_r.
+      eexists. split; [reflexivity|]. cbn [prr_block result_of]. split.
+      + intros block [= <-]. exists txt. split; [exact R|reflexivity].
+      + intros _ txt' R' _. rewrite R in R'. injection R' as <-. reflexivity.
+    - (* copy into a block of the exact size *)
+      unfold allocate. destruct (oracle (pb_req p4)) eqn:O5.
+      { eexists. split; [reflexivity|]. split; [intros block; discriminate|]. intros NF. rewrite NF in O5. discriminate. }
+      cbn [pb_length pb_offset set_alloc]. rewrite O4.
+      assert (Hmin : Z.min (pb_length p4) (zlen txt + 1) = zlen txt + 1) by lia. rewrite Hmin.
+      unfold memcpy0. destruct (Z.leb_spec (zlen txt + 1) 0) as [h|_]; [lia|].
+      destruct (Z.ltb_spec (zlen (txt ++ 0 :: rest)) (zlen txt + 1)) as [h|_].
+      { rewrite zlen_app, zlen_cons in h. pose proof (zlen_nonneg rest). lia. }
+      rewrite Hfirst.
+      destruct (wr_bytes_app (txt ++ [0]) [] (fresh junk (zlen txt + 1))) as (rest' & E5 & L5).
+      { rewrite fresh_len by lia. rewrite zlen_app, zlen_cons, zlen_nil. lia. }
+      change (zlen (@nil Z)) with 0 in E5. cbn [app] in E5. rewrite E5. cbn [bind].
+      rewrite fresh_len in L5 by lia. rewrite zlen_app, zlen_cons, zlen_nil in L5.
+      assert (rest' = []) by (apply zlen_0_nil; lia). subst rest'. rewrite app_nil_r.
+      rewrite (wrz_app txt [] 0 0). cbn [bind].
+      eexists. split; [reflexivity|]. cbn [prr_block result_of]. split.
+      + intros block [= <-]. exists txt. split; [exact R|reflexivity].
+      + intros _ txt' R' _. rewrite R in R'. injection R' as <-. reflexivity.
+  Qed.
+
+  (** cJSON_PrintBuffered: the returned block starts with the rendered text and its terminator,
+      for every prebuffer >= 0, every allocation schedule, both allocator configurations *)
+  Theorem print_buffered_spec (t : node) (prebuffer : Z) (fmt hr : bool) :
+    fields_ok t = true -> 0 <= prebuffer ->
+    exists r, cJSON_PrintBuffered t prebuffer fmt hr = Ok r /\
+      (forall block, prr_block r = Some block -> exists txt rest, render fmt 0 t = Some txt /\ block = txt ++ 0 :: rest) /\
+      ((forall i, oracle i = false) -> forall txt, render fmt 0 t = Some txt -> zlen txt + 2 <= c_INT_MAX ->
+        exists rest, prr_block r = Some (txt ++ 0 :: rest)).
+  Proof.
+    intros Hi Hpre. unfold PrintDefs.cJSON_PrintBuffered, allocate. cbn [pb_req pb_live].
+    destruct (Z.ltb_spec prebuffer 0) as [h|_]; [lia|].
+    destruct (oracle 0) eqn:O0.
+    { eexists. split; [reflexivity|]. split; [intros block; discriminate|]. intros NF. rewrite NF in O0. discriminate. }
+    set (p2 := set_length (set_buf (set_alloc (mkpb None 0 0 0 false fmt hr 0 0) 1 (0 + 1)) (Some (fresh junk prebuffer))) prebuffer).
+    assert (HT : text_at p2 []).
+    { exists (fresh junk prebuffer). split; [split; [reflexivity|]|split; [reflexivity|]].
+      - rewrite fresh_len by lia. reflexivity.
+      - rewrite fresh_len by lia. cbn. lia. }
+    destruct (print_value_spec t Hi p2 [] HT ltac:(cbn; lia)) as (ok & p3 & E & F & S & C).
+    change (pb_format p2) with fmt in S, C. change (pb_depth p2) with 0 in S, C.
+    rewrite E. cbn [bind]. destruct ok; cbn [negb].
+    2: { eexists. split; [reflexivity|]. split; [intros block; discriminate|]. intros NF txt R Hsz.
+         exfalso. assert (false = true) as X; [|discriminate X]. apply (C txt R). apply room_alloc; [reflexivity|exact NF|rewrite zlen_nil; lia]. }
+    destruct (S eq_refl) as (txt & R & (rest & (B1 & B2) & O3) & _).
+    cbn [app] in B1. eexists. split; [reflexivity|]. cbn [prr_block result_of]. rewrite B1. split.
+    + intros block [= <-]. exists txt, rest. split; [exact R|reflexivity].
+    + intros _ txt' R' _. rewrite R in R'. injection R' as <-. exists rest. reflexivity.
   Qed.
 End Main.
